@@ -239,7 +239,10 @@ def run(ctx):
         md = T.rand_table(rng, k=k, nondet=rng.random() < 0.5)
         for w in T.rand_words(rng, md, 4, maxlen=4):
             if any(c not in md["tape_symbols"] for c in w):
-                w = "".join(c for c in w if c in md["tape_symbols"])    # '^'/'_' never occur; foreign 'Z' dropped
+                # a character outside the tape alphabet is outside the model's symbol type: the two verdicts of the
+                # implementation are compared on the word as it is, the model sees it without that character
+                check_marker_characters(ctx, md, w, B)
+                w = "".join(c for c in w if c in md["tape_symbols"])
             check(ctx, batch, md, w, B, "random")
             if i % 4 == 0 and w:
                 j = rng.randrange(len(w) + 1)
